@@ -399,6 +399,20 @@ class Models:
                 raise AnalysisError("rewind to an untracked checkpoint in %s (line %s)" % (fr.body["uname"], line))
             self.rewind(fr, n, ck, line)
             return [(st, UNIT)]
+        if name == "rewind_input":
+            ck = self.deref_val(fr, vals[1])
+            if not (isinstance(ck, tuple) and ck[0] == "ckpt"):
+                raise AnalysisError("rewind_input to an untracked checkpoint in %s (line %s)" % (fr.body["uname"], line))
+            # position-only restore: legal only on a clean input (after a *successful* sub-parse);
+            # after a failure the abandoned attempt's emissions must be truncated, i.e. a full rewind.
+            self.poison_check(fr, n, "position-only rewind_input()", line)
+            if ck[1][0] == "X":
+                self.I.violate("POISON", "rewind_input to checkpoint saved after failed %s" % ck[1][1][0],
+                               "rewind target was saved while the input was poisoned", st, line, fr.body)
+            st.ev("rewind_input", ck[1], line)
+            self.I.rewinds.append((fr.body, ck[1], i.pos, line, st))
+            i.pos = ck[1]
+            return [(st, UNIT)]
         if name in TOKEN_READERS or name == "skip":
             self.poison_check(fr, n, "token read %s()" % name, line)
             site = ("token", name, line)
